@@ -135,4 +135,15 @@ CHECKS = {
         'technique': 'exhaustive enumeration + property-based testing (Hypothesis) against a reference model of string '
                      'cleaning; metamorphic single-character edits',
     },
+    'C12': {
+        'text': 'All sampler classes over generated option grids (intervals incl. reversed/degenerate, rectangles, '
+                'sectors, discrete sets, function lists, random functions over input/output dimensions, vectors / '
+                'matrices / tensors, identity multiples) and EXHAUSTIVELY all 288 SquareMatrices combinations x 4 norm '
+                'ranges; K draws per configuration judged by set membership, shape, dtype, norm range, symmetry, trace, '
+                'triangularity and determinant to numerical precision; constructor acceptance against the documented '
+                'existence table.',
+        'note': 'Numerical tolerances calibrated with 3-6 orders of margin on the pinned tree; endpoint attainment only '
+                'for integer ranges of <= 9 values (400 draws); scipy-dependent samplers excluded.',
+        'technique': 'property-based testing (Hypothesis) + exhaustive enumeration with set-membership oracles',
+    },
 }
